@@ -39,7 +39,7 @@ func forCases(prop, tier string, seed uint64) []Case {
 		for _, f := range []string{"ustar", "pax", "gnu"} {
 			for _, root := range []string{"./", "/", "top/"} {
 				// padding after the trailer as tar's blocking factor produces it (any number of zero blocks up to one tar record)
-				p := forP{Format: f, Root: root, RS: []int{1, 20, 64}[(rep+i)%3], Pad: []int{0, 1, 2, 3, 5, 17, 18}[(rep*3+i/3)%7]}
+				p := forP{Format: f, Root: root, RS: []int{1, 20, 64, 128, 512}[(rep+i)%5], Pad: []int{0, 1, 2, 3, 5, 17, 18}[(rep*3+i/3)%7]}
 				pb, _ := json.Marshal(p)
 				cases = append(cases, Case{ID: fmt.Sprintf("c17-%04d-%s-%s", i, f, strings.ReplaceAll(root, "/", "_")), Seed: subSeed(seed, prop, tier, fmt.Sprint(i)), Kind: "random", P: pb})
 				i++
@@ -58,8 +58,11 @@ func genForeignTree(seed uint64, format string) (map[string]*fEnt, []string) {
 	ents := map[string]*fEnt{}
 	var order []string
 	comps := []string{"d", "e", "sub", "a b", "x_y", "p%q", "data.bin", "README", "f1", "f2", "notes.txt"}
-	if format != "ustar" {
+	if format == "pax" || format == "gnu" {
 		comps = append(comps, "ä", strings.Repeat("long", 30)+"-name") // non-ASCII and 124 bytes: PAX / GNU long-name territory
+		comps = append(comps, strings.Repeat("n", 100), strings.Repeat("m", 101), strings.Repeat("k", 255))
+	} else if format == "ustar" {
+		comps = append(comps, strings.Repeat("u", 60)) // deeper paths then exceed the 100-byte name field: ustar splits them into prefix + name
 	}
 	var rec func(dir string, d int)
 	rec = func(dir string, d int) {
@@ -119,6 +122,13 @@ func writeForeignTar(p forP, ents map[string]*fEnt, order []string) ([]byte, err
 	for _, pp := range order {
 		e := ents[pp]
 		h := &tar.Header{Name: name(pp, e.Dir), Mode: e.Mode, ModTime: mt, Format: format, Uid: 1000, Gid: 1000, Uname: "user", Gname: "group"}
+		if p.Format != "ustar" && len(pp)%3 == 0 {
+			h.Uid, h.Gid = 3000000, 1<<31-1 // beyond the octal field: PAX records / GNU base-256
+			if p.Format == "pax" {
+				h.ModTime = time.Unix(1650000000, 123456789)
+				h.Uname = strings.Repeat("U", 40)
+			}
+		}
 		if e.Dir {
 			h.Typeflag = tar.TypeDir
 		} else {
@@ -150,6 +160,11 @@ func forRun(prop, tier string, c Case, w *Worker) (res Result) {
 	}
 	ents, order := genForeignTree(c.Seed, p.Format)
 	img, err := writeForeignTar(p, ents, order)
+	if err != nil && p.Format == "ustar" {
+		// a path this format cannot encode: fall back to the tree without long components
+		ents, order = genForeignTree(c.Seed, "ustar-short")
+		img, err = writeForeignTar(p, ents, order)
+	}
 	if err != nil {
 		res.Verdict, res.Msg = "inconclusive", "writing the foreign archive: "+err.Error()
 		return
